@@ -7,7 +7,7 @@ import sys, random, collections, os, json
 from common import write_shards
 from nix_manipulator import parse
 import nix_manipulator.cli.manipulations as M
-from nix_manipulator.expressions import AttributeSet, FunctionCall, FunctionDefinition, Identifier, WithStatement
+from nix_manipulator.expressions import AttributeSet, FunctionCall, FunctionDefinition, Identifier, Select, WithStatement
 from nix_manipulator.expressions.assertion import Assertion
 from nix_manipulator.expressions.let import LetExpression
 from nix_manipulator.expressions.parenthesis import Parenthesis
@@ -113,12 +113,15 @@ def run_case(text):
             row[a] = 'None' if ch is None else '(Some %d)' % rec.nid(ch)
         row['strip'] = rec.nid(M._strip_parentheses(o))
         row['supports'] = 'true' if (c == 'CCall' and M._supports_attrset_argument(o.name)) else 'false'
+        nm = getattr(o, 'name', None) if c == 'CCall' else None
+        row['name'] = 'None' if (nm is None or isinstance(nm, str)) else '(Some %d)' % rec.nid(nm)
+        row['select'] = 'true' if isinstance(o, Select) else 'false'
         rows.append(row); i += 1
     for r in rows: CLSES[r['cls']] += 1
     def L(xs): return '[' + '; '.join(str(x) for x in xs) + ']'
-    tb = ('{| t_cls := %s; t_body := %s; t_value := %s; t_output := %s; t_argument := %s; t_strip := %s; t_supports := %s; t_truthy := %s; t_scopes := %s; t_values := %s |}'
+    tb = ('{| t_cls := %s; t_body := %s; t_value := %s; t_output := %s; t_argument := %s; t_strip := %s; t_supports := %s; t_name := %s; t_select := %s; t_truthy := %s; t_scopes := %s; t_values := %s |}'
           % (L(r['cls'] for r in rows), L(r['body'] for r in rows), L(r['value'] for r in rows), L(r['output'] for r in rows), L(r['argument'] for r in rows),
-             L(r['strip'] for r in rows), L(r['supports'] for r in rows), L('true' if t else 'false' for t in rec.truthy),
+             L(r['strip'] for r in rows), L(r['supports'] for r in rows), L(r['name'] for r in rows), L(r['select'] for r in rows), L('true' if t else 'false' for t in rec.truthy),
              L('(%d, %d, %s)' % s for s in rec.scopes), L('(%d, %d, %s)' % v for v in rec.values)))
     SIZES[min(len(rows), 12)] += 1; MUT[min(rec.version, 6)] += 1
     return '(%s, %s, %s, %d)' % (tb, L(exprs), out, rec.version)
@@ -143,11 +146,11 @@ while len(cases) < NCASES and tries < NCASES * 30:
     seen.add(t); cases.append(c)
 HDR = 'From Coq Require Import List Arith Bool. Import ListNotations.\nFrom Dyn Require Import TargetGen TargetProps.\n'
 OK = ('Definition res_eqb (a b : res nat) : bool := match a, b with RVal x, RVal y => Nat.eqb x y | RErrV, RErrV | RErrO, RErrO => true | _, _ => false end.\n'
-      'Definition ok (c : table * list nat * res nat * nat) : bool := match c with (tb, es, r, v) => let o := table_run tb es in res_eqb (fst o) r && Nat.eqb (snd o) v end.\n')
+      'Definition ok (c : table * list nat * res nat * nat) : bool := match c with (tb, es, r, v) => let o := table_run tb es in res_eqb (fst o) r && Nat.eqb (snd o) v && tb_helpers_ok tb end.\n')
 write_shards(outdir, prefix, HDR, 'table * list nat * res nat * nat', OK, cases, 8)
 json.dump({'stats': {'outcomes': dict(KIND), 'node_classes': dict(CLSES), 'table_sizes': {str(k): v for k, v in sorted(SIZES.items())}, 'context_mutations': {str(k): v for k, v in sorted(MUT.items())}},
            'keys': sorted(KIND), 'distinct_count': len(seen),
            'rule': 'documents: random stacks (depth 0-5) of assert / let / lambda / with / parentheses / calls (plain, parenthesised, curried, unsupported callees) / let-bound names (chains, cycles, unbound) over sets and non-sets; '
-                   'the regenerated _resolve_target_set evaluated in the recorded table world must give the implementation\'s outcome and number of context mutations',
+                   'the regenerated _resolve_target_set evaluated in the recorded table world must give the implementation\'s outcome and number of context mutations; the recorded _strip_parentheses / _supports_attrset_argument of every node must be what the regenerated helpers compute',
            'samples': [cases[1][:400]]}, open(os.path.join(outdir, prefix + '_summary.json'), 'w'))
 print(len(cases))
